@@ -1,0 +1,533 @@
+//go:build verif
+
+package websocket
+
+// Contracts, spec functions and lemma harnesses for the deductive verifier in /verif (govc).
+// This file is compiled only with -tags verif; it adds no behaviour to the package.
+//
+// Property C59: WebSocket messages cross the connection intact. The byte streams behind the
+// bufio.Reader/Writer are not modelled; instead
+//   - hybiFrameWriter.Write is proved to hand to the writer, in this order, a header that has
+//     exactly the RFC 6455 section 5.2 layout (predicate hdrOK: specByte0, specByte1, specExtLen,
+//     big-endian extended length, masking key) and a payload that is msg (server) or msg XOR
+//     key[i%4] (client), followed by one Flush;
+//   - hybiFrameReaderFactory.NewFrameReader is proved to compute its header fields from the bytes
+//     ReadByte returned, in stream order (ghost counters s0..s13), with the decoding functions
+//     dFin/dRsv/dOp/dMasked/dExt/dLen/dHdrLen/sel3, to consume exactly the announced header
+//     length and to start the unmasking position at 0; hybiFrameReader.Read unmasks with
+//     key[pos%4] and advances pos by exactly the number of bytes delivered;
+//   - lemmaHeaderAgree proves that any byte string satisfying the writer's layout decodes to the
+//     same FIN/RSV/opcode/mask flag/key/length and to a header length equal to its own length, for
+//     every payload length (in particular 125/126 and 65535/65536);
+//   - lemmaMaskAlign proves that masking at stream index i and unmasking at pos == i is the
+//     identity;
+//   - NewFrameWriter/newHybiConn: exactly the client side masks; HandleFrame: the masking rule,
+//     opcode bookkeeping, PING -> PONG; Codec.Receive: oversized-frame refusal and drain;
+//     Conn.Write/Codec.Send: one frame per message with the message's type and bytes.
+
+// ---------------------------------------------------------------------------
+// RFC 6455 section 5.2 layout (encoder side)
+
+// specByte0 is the first header byte: FIN, RSV1-3, opcode.
+//
+//@ pure
+func specByte0(fin, r1, r2, r3 bool, op byte) byte {
+	var b byte
+	if fin {
+		b |= 0x80
+	}
+	if r1 {
+		b |= 0x40
+	}
+	if r2 {
+		b |= 0x20
+	}
+	if r3 {
+		b |= 0x10
+	}
+	return b | op
+}
+
+// specByte1 is the second header byte: MASK bit and the 7-bit payload length code.
+//
+//@ pure
+func specByte1(masked bool, n int) byte {
+	var b byte
+	if masked {
+		b = 0x80
+	}
+	switch {
+	case n <= 125:
+		return b | byte(n)
+	case n <= 65535:
+		return b | 126
+	}
+	return b | 127
+}
+
+// specExtLen is the number of extended payload length bytes for a payload of n bytes.
+//
+//@ pure
+func specExtLen(n int) int {
+	switch {
+	case n <= 125:
+		return 0
+	case n <= 65535:
+		return 2
+	}
+	return 8
+}
+
+// specHdrLen is the total header length.
+//
+//@ pure
+func specHdrLen(masked bool, n int) int {
+	if masked {
+		return 2 + specExtLen(n) + 4
+	}
+	return 2 + specExtLen(n)
+}
+
+// be16 / be64 read big-endian integers at offset off.
+//
+//@ pure
+func be16(h []byte, off int) int64 {
+	return int64(h[off])<<8 | int64(h[off+1])
+}
+
+//@ pure
+func be64(h []byte, off int) uint64 {
+	return uint64(h[off])<<56 | uint64(h[off+1])<<48 | uint64(h[off+2])<<40 | uint64(h[off+3])<<32 |
+		uint64(h[off+4])<<24 | uint64(h[off+5])<<16 | uint64(h[off+6])<<8 | uint64(h[off+7])
+}
+
+// hdrOK says that h has exactly the RFC 6455 layout of a frame header with the given FIN/RSV bits,
+// opcode, mask flag and payload length n: shortest length form (7 bits up to 125, 16 bits up to
+// 65535, 64 bits above), big-endian extended length, and room for the key iff masked.
+//
+//@ pure
+func hdrOK(h []byte, fin, r1, r2, r3 bool, op byte, masked bool, n int) bool {
+	if len(h) != specHdrLen(masked, n) {
+		return false
+	}
+	if h[0] != specByte0(fin, r1, r2, r3, op) || h[1] != specByte1(masked, n) {
+		return false
+	}
+	e := specExtLen(n)
+	if e == 2 && be16(h, 2) != int64(n) {
+		return false
+	}
+	if e == 8 && be64(h, 2) != uint64(n) {
+		return false
+	}
+	return true
+}
+
+// keyOK says that the last four bytes of the (masked) header h are the masking key k0..k3.
+//
+//@ pure
+func keyOK(h []byte, k0, k1, k2, k3 byte) bool {
+	return h[len(h)-4] == k0 && h[len(h)-3] == k1 && h[len(h)-2] == k2 && h[len(h)-1] == k3
+}
+
+// ---------------------------------------------------------------------------
+// hybiFrameWriter.Write: the first write is the header (hdrOK), the second the payload (msg itself
+// on the server side, msg XOR key[i%4] on the client side), then one Flush; a masking key that is
+// not 4 bytes long is refused before anything is written.
+
+//@ func (*hybiFrameWriter).Write(frame, msg) (n, err)
+//@   requires frame != nil && frame.header != nil && frame.writer != nil
+//@   ghost nw += 1 at call Write
+//@   ghost nf += 1 at call Flush
+//@   assert at call Write: ghost(nw) == 0 ==> hdrOK($p, frame.header.Fin, frame.header.Rsv[0], frame.header.Rsv[1], frame.header.Rsv[2], frame.header.OpCode, frame.header.MaskingKey != nil, len(msg))
+//@   assert at call Write: ghost(nw) == 0 && frame.header.MaskingKey != nil ==> keyOK($p, frame.header.MaskingKey[0], frame.header.MaskingKey[1], frame.header.MaskingKey[2], frame.header.MaskingKey[3])
+//@   assert at call Write: ghost(nw) == 1 ==> len($p) == len(msg)
+//@   assert at call Write: ghost(nw) == 1 && frame.header.MaskingKey == nil ==> (forall k int :: 0 <= k && k < len(msg) ==> $p[k] == msg[k])
+//@   assert at call Write: ghost(nw) == 1 && frame.header.MaskingKey != nil ==> (forall k int :: 0 <= k && k < len(msg) ==> $p[k] == msg[k] ^ frame.header.MaskingKey[k&3])
+//@   assert at call Write: ghost(nw) <= 1 && (frame.header.MaskingKey == nil || len(frame.header.MaskingKey) == 4)
+//@   assert at call Flush: ghost(nw) == 2 && ghost(nf) == 0
+//@   ensures frame.header.MaskingKey != nil && len(frame.header.MaskingKey) != 4 ==> n == 0 && err == ErrBadMaskingKey
+//@   ensures frame.header.MaskingKey == nil || len(frame.header.MaskingKey) == 4 ==> n == len(msg)
+//@   modifies *frame.writer
+//@   allocates
+//@   loop 2 unroll 9
+//@   loop 3 invariant -1 <= rangeindex && rangeindex < len(data) && len(data) == len(msg) && !samebase(data, msg) && !samebase(data, frame.header.MaskingKey) && len(frame.header.MaskingKey) == 4
+//@   loop 3 invariant forall k int :: 0 <= k && k <= rangeindex ==> data[k] == msg[k] ^ frame.header.MaskingKey[k&3]
+//@   loop 3 modifies elems(data)
+
+// ---------------------------------------------------------------------------
+// Decoder side: the header fields as functions of the bytes read, in order (RFC 6455 section 5.2).
+// b0, b1 are the first two bytes, e0..e7 the bytes that follow them.
+
+//@ pure
+func dFin(b0 byte) bool { return b0&0x80 != 0 }
+
+//@ pure
+func dRsv1(b0 byte) bool { return b0&0x40 != 0 }
+
+//@ pure
+func dRsv2(b0 byte) bool { return b0&0x20 != 0 }
+
+//@ pure
+func dRsv3(b0 byte) bool { return b0&0x10 != 0 }
+
+//@ pure
+func dOp(b0 byte) byte { return b0 & 0x0f }
+
+//@ pure
+func dMasked(b1 byte) bool { return b1&0x80 != 0 }
+
+// dExt is the number of extended length bytes announced by the 7-bit length code.
+//
+//@ pure
+func dExt(b1 byte) int {
+	switch c := b1 & 0x7f; {
+	case c <= 125:
+		return 0
+	case c == 126:
+		return 2
+	}
+	return 8
+}
+
+// dLen is the payload length: the 7-bit code itself, or the 16-bit or 64-bit big-endian integer
+// that follows it (the most significant bit of the 64-bit form is ignored).
+//
+//@ pure
+func dLen(b1, e0, e1, e2, e3, e4, e5, e6, e7 byte) int64 {
+	switch c := b1 & 0x7f; {
+	case c <= 125:
+		return int64(c)
+	case c == 126:
+		return int64(e0)<<8 | int64(e1)
+	}
+	return int64(e0&0x7f)<<56 | int64(e1)<<48 | int64(e2)<<40 | int64(e3)<<32 |
+		int64(e4)<<24 | int64(e5)<<16 | int64(e6)<<8 | int64(e7)
+}
+
+// dHdrLen is the header length announced by the second byte.
+//
+//@ pure
+func dHdrLen(b1 byte) int {
+	if dMasked(b1) {
+		return 2 + dExt(b1) + 4
+	}
+	return 2 + dExt(b1)
+}
+
+// sel3 picks the byte that follows an extended length of 0, 2 or 8 bytes.
+//
+//@ pure
+func sel3(ext int, a, b, c byte) byte {
+	switch ext {
+	case 0:
+		return a
+	case 2:
+		return b
+	}
+	return c
+}
+
+// NewFrameReader. The ghost counters s0..s13 record the bytes returned by the successive ReadByte
+// calls (nread counts them). When the header is complete (call of bytes.NewBuffer, after which only
+// header.data and length are set) every field of the new frame reader is the decoding of those
+// bytes in stream order and exactly the announced number of header bytes was consumed; the payload
+// reader is limited to exactly Length bytes; the unmasking position starts at 0. The ghost
+// counters appear only in call-site assertions: a postcondition mentioning ghost() would be
+// evaluated over the CALLER's counters where the contract is used (Codec.Receive).
+//
+//@ func (hybiFrameReaderFactory).NewFrameReader(buf) (frame, err)
+//@   requires buf.Reader != nil
+//@   ghost s0 += $r0 after call ReadByte when ghost(nread) == 0
+//@   ghost s1 += $r0 after call ReadByte when ghost(nread) == 1
+//@   ghost s2 += $r0 after call ReadByte when ghost(nread) == 2
+//@   ghost s3 += $r0 after call ReadByte when ghost(nread) == 3
+//@   ghost s4 += $r0 after call ReadByte when ghost(nread) == 4
+//@   ghost s5 += $r0 after call ReadByte when ghost(nread) == 5
+//@   ghost s6 += $r0 after call ReadByte when ghost(nread) == 6
+//@   ghost s7 += $r0 after call ReadByte when ghost(nread) == 7
+//@   ghost s8 += $r0 after call ReadByte when ghost(nread) == 8
+//@   ghost s9 += $r0 after call ReadByte when ghost(nread) == 9
+//@   ghost s10 += $r0 after call ReadByte when ghost(nread) == 10
+//@   ghost s11 += $r0 after call ReadByte when ghost(nread) == 11
+//@   ghost s12 += $r0 after call ReadByte when ghost(nread) == 12
+//@   ghost s13 += $r0 after call ReadByte when ghost(nread) == 13
+//@   ghost nread += 1 after call ReadByte
+//@   assert at call LimitReader: $n == hybiFrame.header.Length
+//@   assert at call NewBuffer: len($buf) == ghost(nread) && ghost(nread) == dHdrLen(byte(ghost(s1)))
+//@   assert at call NewBuffer: hybiFrame.header.Fin == dFin(byte(ghost(s0))) && hybiFrame.header.Rsv[0] == dRsv1(byte(ghost(s0))) && hybiFrame.header.Rsv[1] == dRsv2(byte(ghost(s0))) && hybiFrame.header.Rsv[2] == dRsv3(byte(ghost(s0))) && hybiFrame.header.OpCode == dOp(byte(ghost(s0)))
+//@   assert at call NewBuffer: hybiFrame.header.Length == dLen(byte(ghost(s1)), byte(ghost(s2)), byte(ghost(s3)), byte(ghost(s4)), byte(ghost(s5)), byte(ghost(s6)), byte(ghost(s7)), byte(ghost(s8)), byte(ghost(s9)))
+//@   assert at call NewBuffer: (!dMasked(byte(ghost(s1))) ==> hybiFrame.header.MaskingKey == nil) && (dMasked(byte(ghost(s1))) ==> len(hybiFrame.header.MaskingKey) == 4 &&
+//@            hybiFrame.header.MaskingKey[0] == sel3(dExt(byte(ghost(s1))), byte(ghost(s2)), byte(ghost(s4)), byte(ghost(s10))) && hybiFrame.header.MaskingKey[1] == sel3(dExt(byte(ghost(s1))), byte(ghost(s3)), byte(ghost(s5)), byte(ghost(s11))) && hybiFrame.header.MaskingKey[2] == sel3(dExt(byte(ghost(s1))), byte(ghost(s4)), byte(ghost(s6)), byte(ghost(s12))) && hybiFrame.header.MaskingKey[3] == sel3(dExt(byte(ghost(s1))), byte(ghost(s5)), byte(ghost(s7)), byte(ghost(s13))))
+//@   ensures  frame != nil && hastype(frame, *hybiFrameReader) && frame.(*hybiFrameReader) != nil && fresh(frame.(*hybiFrameReader))
+//@   ensures  err == nil ==> frame.(*hybiFrameReader).pos == 0 && frame.(*hybiFrameReader).reader != nil && frame.(*hybiFrameReader).header.data != nil && frame.(*hybiFrameReader).header.Length >= 0 && frame.(*hybiFrameReader).header.OpCode < 16 &&
+//@            (frame.(*hybiFrameReader).header.MaskingKey == nil || len(frame.(*hybiFrameReader).header.MaskingKey) == 4) && frame.(*hybiFrameReader).length - int(frame.(*hybiFrameReader).header.Length) >= 2 && frame.(*hybiFrameReader).length - int(frame.(*hybiFrameReader).header.Length) <= 14
+//@   modifies *buf.Reader
+//@   noframe
+//@   allocates
+//@   loop 2 unroll 9
+//@   loop 3 unroll 5
+
+// ---------------------------------------------------------------------------
+// hybiFrameReader.Read: whatever the payload reader delivered (n bytes at the start of msg) is
+// unmasked in place with key[pos%4], pos counting the payload bytes of the frame delivered so far
+// (loop invariant: byte k of this call is XORed with key[(pos_before+k)%4], the rest of msg is
+// left as the payload reader filled it); pos advances by exactly n. An unmasked frame is passed
+// through untouched.
+//
+//@ func (*hybiFrameReader).Read(frame, msg) (n, err)
+//@   requires frame != nil && frame.reader != nil
+//@   requires frame.header.MaskingKey != nil ==> len(frame.header.MaskingKey) == 4 && !samebase(msg, frame.header.MaskingKey)
+//@   requires 0 <= frame.pos && frame.pos <= 1<<62
+//@   ensures  0 <= n && n <= len(msg)
+//@   ensures  frame.header.MaskingKey != nil ==> frame.pos == old(frame.pos) + int64(n)
+//@   ensures  frame.header.MaskingKey == nil ==> frame.pos == old(frame.pos)
+//@   modifies elems(msg), frame.pos
+//@   loop 1 invariant 0 <= i && i <= n && n <= len(msg) && frame.pos == atloop(frame.pos) + int64(i)
+//@   loop 1 invariant forall k int :: 0 <= k && k < i ==> msg[k] == atloop(msg[k]) ^ frame.header.MaskingKey[(atloop(frame.pos) + int64(k)) & 3]
+//@   loop 1 invariant forall k int :: i <= k && k < len(msg) ==> msg[k] == atloop(msg[k])
+//@   loop 1 modifies elems(msg), frame.pos
+
+// lemmaMaskAlign: masking payload byte i with key[i%4] (writer) and unmasking it at position
+// pos == i with key[pos%4] (reader) gives the byte back; and for the non-negative indices used,
+// x%4 == x&3 (the form the quantified clauses above use).
+//
+//@ lemma
+//@ requires len(key) == 4 && 0 <= i
+//@ ensures ok
+func lemmaMaskAlign(x byte, key []byte, i int) (ok bool) {
+	m := x ^ key[i%4]
+	pos := int64(i)
+	u := m ^ key[pos%4]
+	return u == x && i%4 == i&3 && pos%4 == pos&3
+}
+
+// ---------------------------------------------------------------------------
+// Which frames are masked: a frame writer made by the factory carries a 4-byte masking key exactly
+// when the factory's needMaskingKey is set (newHybiConn sets it to request == nil: client side).
+
+//@ func generateMaskingKey() (maskingKey, err)
+//@   ensures err == nil ==> maskingKey != nil && len(maskingKey) == 4
+//@   allocates
+//@
+//@ func (hybiFrameWriterFactory).NewFrameWriter(buf, payloadType) (frame, err)
+//@   ensures err == nil ==> frame != nil && hastype(frame, *hybiFrameWriter) && frame.(*hybiFrameWriter) != nil && fresh(frame.(*hybiFrameWriter)) && frame.(*hybiFrameWriter).writer == buf.Writer && frame.(*hybiFrameWriter).header != nil
+//@   ensures err == nil ==> frame.(*hybiFrameWriter).header.Fin && frame.(*hybiFrameWriter).header.OpCode == payloadType && !frame.(*hybiFrameWriter).header.Rsv[0] && !frame.(*hybiFrameWriter).header.Rsv[1] && !frame.(*hybiFrameWriter).header.Rsv[2]
+//@   ensures err == nil && buf.needMaskingKey ==> frame.(*hybiFrameWriter).header.MaskingKey != nil && len(frame.(*hybiFrameWriter).header.MaskingKey) == 4
+//@   ensures err == nil && !buf.needMaskingKey ==> frame.(*hybiFrameWriter).header.MaskingKey == nil
+//@   ensures err != nil ==> frame == nil
+//@   noframe
+//@   allocates
+
+// ---------------------------------------------------------------------------
+// hybiFrameHandler.HandleFrame: the masking rule (a server disconnects a peer that sends an
+// unmasked frame, a client one that sends a masked frame: close with status 1002 and io.EOF),
+// opcode bookkeeping for continuation frames, PING answered by exactly one PONG.
+// WriteClose / WritePong perform the I/O (lock, frame writer): trusted, counted by ghost counters.
+
+//@ func (*hybiFrameHandler).WriteClose(handler, status) (err)
+//@   trusted
+//@ func (*hybiFrameHandler).WritePong(handler, msg) (n, err)
+//@   trusted
+//@
+//@ func (*hybiFrameHandler).HandleFrame(handler, frame) (r, err)
+//@   requires handler != nil && handler.conn != nil
+//@   requires frame != nil && hastype(frame, *hybiFrameReader) && frame.(*hybiFrameReader) != nil
+//@   ghost closes += 1 at call WriteClose
+//@   ghost pongs += 1 at call WritePong
+//@   assert at call WriteClose: $status == closeStatusProtocolError
+//@   assert at call WritePong: len($msg) <= maxControlFramePayloadLength
+//@   assert at call WriteClose: (handler.conn.request != nil) == (old(frame.(*hybiFrameReader).header.MaskingKey) == nil) && ghost(closes) == 0
+//@   assert at call WritePong: (handler.conn.request != nil) != (old(frame.(*hybiFrameReader).header.MaskingKey) == nil) && old(frame.(*hybiFrameReader).header.OpCode) == PingFrame && ghost(pongs) == 0
+//@   assert at call HeaderReader: (handler.conn.request != nil) != (old(frame.(*hybiFrameReader).header.MaskingKey) == nil)
+//@   ensures (handler.conn.request != nil) == (old(frame.(*hybiFrameReader).header.MaskingKey) == nil) ==> r == nil && err == io.EOF
+//@   ensures (handler.conn.request != nil) != (old(frame.(*hybiFrameReader).header.MaskingKey) == nil) && (old(frame.(*hybiFrameReader).header.OpCode) == TextFrame || old(frame.(*hybiFrameReader).header.OpCode) == BinaryFrame) ==> r == frame && err == nil && handler.payloadType == old(frame.(*hybiFrameReader).header.OpCode) && frame.(*hybiFrameReader).header.OpCode == old(frame.(*hybiFrameReader).header.OpCode)
+//@   ensures (handler.conn.request != nil) != (old(frame.(*hybiFrameReader).header.MaskingKey) == nil) && old(frame.(*hybiFrameReader).header.OpCode) == ContinuationFrame ==> r == frame && err == nil && frame.(*hybiFrameReader).header.OpCode == old(handler.payloadType) && handler.payloadType == old(handler.payloadType)
+//@   ensures (handler.conn.request != nil) != (old(frame.(*hybiFrameReader).header.MaskingKey) == nil) && old(frame.(*hybiFrameReader).header.OpCode) == CloseFrame ==> r == nil && err == io.EOF
+//@   ensures (handler.conn.request != nil) != (old(frame.(*hybiFrameReader).header.MaskingKey) == nil) && (old(frame.(*hybiFrameReader).header.OpCode) == PingFrame || old(frame.(*hybiFrameReader).header.OpCode) == PongFrame) ==> r == nil
+//@   ensures (handler.conn.request != nil) != (old(frame.(*hybiFrameReader).header.MaskingKey) == nil) && old(frame.(*hybiFrameReader).header.OpCode) != ContinuationFrame && old(frame.(*hybiFrameReader).header.OpCode) != TextFrame && old(frame.(*hybiFrameReader).header.OpCode) != BinaryFrame && old(frame.(*hybiFrameReader).header.OpCode) != CloseFrame && old(frame.(*hybiFrameReader).header.OpCode) != PingFrame && old(frame.(*hybiFrameReader).header.OpCode) != PongFrame ==> r == frame && err == nil
+//@   ensures r != nil ==> r == frame
+//@   modifies handler.payloadType, hybiFrameHeader.OpCode
+//@   allocates
+
+// lemmaHandleFrameCounts runs the body of HandleFrame (usebody) so that its ghost counters are
+// visible: a masking violation sends exactly one close frame and no PONG; a correctly masked
+// frame sends no close frame; a PING that was handled without error was answered by exactly one
+// PONG; no other frame type sends a PONG.
+//
+//@ lemma
+//@ usebody (*hybiFrameHandler).HandleFrame
+//@ requires handler != nil && handler.conn != nil && frame != nil
+//@ ensures viol ==> ghost(closes) == 1 && ghost(pongs) == 0
+//@ ensures !viol ==> ghost(closes) == 0
+//@ ensures !viol && op == PingFrame ==> ghost(pongs) <= 1 && (err == nil ==> ghost(pongs) == 1)
+//@ ensures !viol && op != PingFrame ==> ghost(pongs) == 0
+//@ modifies handler.payloadType, frame.header.OpCode
+//@ allocates
+func lemmaHandleFrameCounts(handler *hybiFrameHandler, frame *hybiFrameReader) (viol bool, op byte, err error) {
+	viol = (handler.conn.request != nil) == (frame.header.MaskingKey == nil)
+	op = frame.header.OpCode
+	_, err = handler.HandleFrame(frame)
+	return viol, op, err
+}
+
+// ---------------------------------------------------------------------------
+// Codec.Receive: an oversized frame is refused without reading its payload into memory and is
+// remembered in ws.frameReader; the next Receive drains it (io.Copy to io.Discard) before it asks
+// for the next frame header, so the next message is parsed from a frame boundary.
+
+//@ pure
+func specMaxPayload(m int) int64 {
+	if m == 0 {
+		return int64(DefaultMaxPayloadBytes)
+	}
+	return int64(m)
+}
+
+//@ func (Codec).Receive(cd, ws, v) (err)
+//@   requires ws != nil
+//@   requires hastype(ws.frameReaderFactory, hybiFrameReaderFactory) && ws.frameReaderFactory.(hybiFrameReaderFactory).Reader != nil
+//@   requires hastype(ws.frameHandler, *hybiFrameHandler) && ws.frameHandler.(*hybiFrameHandler) != nil && ws.frameHandler.(*hybiFrameHandler).conn != nil
+//@   trustcall Unmarshal
+//@   ghost drains += 1 at call Copy
+//@   ghost reads += 1 at call ReadAll
+//@   ghost big += 1 after call HandleFrame when $r1 == nil && $r0 != nil && hastype($r0, *hybiFrameReader) && $r0.(*hybiFrameReader).header.Length > specMaxPayload(ws.MaxPayloadBytes)
+//@   assert at call Copy: ghost(drains) == 0 && old(ws.frameReader) != nil && $src == old(ws.frameReader)
+//@   assert at call NewFrameReader: ws.frameReader == nil && (old(ws.frameReader) != nil ==> ghost(drains) == 1)
+//@   assert at call ReadAll: ws.frameReader == nil && $r == frame && ghost(big) == 0 && (hastype(frame, *hybiFrameReader) ==> frame.(*hybiFrameReader).header.Length <= specMaxPayload(ws.MaxPayloadBytes))
+//@   ensures ghost(big) > 0 ==> err == ErrFrameTooLarge && ghost(reads) == 0 && ws.frameReader != nil && hastype(ws.frameReader, *hybiFrameReader) && ws.frameReader.(*hybiFrameReader).header.Length > specMaxPayload(ws.MaxPayloadBytes)
+//@   ensures ghost(big) == 0 && (old(ws.frameReader) == nil || ghost(nfr) > 0) ==> ws.frameReader == nil
+//@   ensures ws.frameReader != nil ==> err != nil && ghost(reads) == 0
+//@   ensures old(ws.frameReader) != nil ==> ghost(drains) == 1
+//@   ghost nfr += 1 at call NewFrameReader
+//@   modifies ws.frameReader, hybiFrameHandler.payloadType, hybiFrameHeader.OpCode, *ws.frameReaderFactory.(hybiFrameReaderFactory).Reader
+//@   noframe
+//@   allocates
+//@   loop 1 invariant ws.frameReader == nil && ghost(reads) == 0 && ghost(big) == 0 && (old(ws.frameReader) != nil ==> ghost(drains) == 1) && ghost(drains) <= 1
+
+// ---------------------------------------------------------------------------
+// Encoder/decoder agreement.
+
+// at is byte k of the stream h, 0 beyond its end (the ghost byte counters of NewFrameReader are 0
+// for bytes that were never read).
+//
+//@ pure
+func at(h []byte, k int) byte {
+	if k < len(h) {
+		return h[k]
+	}
+	return 0
+}
+
+// lemmaHeaderAgree: every byte string that has the layout hybiFrameWriter.Write is proved to emit
+// (hdrOK, keyOK) for some FIN/RSV/opcode/key/payload length n >= 0 is decoded by the functions that
+// NewFrameReader is proved to implement (dFin .. dLen, sel3 over the bytes in stream order) to
+// exactly those values, and announces a header length equal to its own length: the reader
+// consumes the header and nothing else, and limits the payload to n bytes. For all n, in
+// particular 125/126 and 65535/65536.
+//
+//@ lemma
+//@ requires 0 <= n && op < 16
+//@ requires hdrOK(h, fin, r1, r2, r3, op, masked, n) && (masked ==> keyOK(h, k0, k1, k2, k3))
+//@ ensures ok
+func lemmaHeaderAgree(h []byte, fin, r1, r2, r3 bool, op byte, masked bool, k0, k1, k2, k3 byte, n int) (ok bool) {
+	b0, b1 := h[0], h[1]
+	if dFin(b0) != fin || dRsv1(b0) != r1 || dRsv2(b0) != r2 || dRsv3(b0) != r3 || dOp(b0) != op || dMasked(b1) != masked {
+		return false
+	}
+	if dHdrLen(b1) != len(h) {
+		return false
+	}
+	if dLen(b1, at(h, 2), at(h, 3), at(h, 4), at(h, 5), at(h, 6), at(h, 7), at(h, 8), at(h, 9)) != int64(n) {
+		return false
+	}
+	ext := dExt(b1)
+	if masked && (sel3(ext, at(h, 2), at(h, 4), at(h, 10)) != k0 || sel3(ext, at(h, 3), at(h, 5), at(h, 11)) != k1 ||
+		sel3(ext, at(h, 4), at(h, 6), at(h, 12)) != k2 || sel3(ext, at(h, 5), at(h, 7), at(h, 13)) != k3) {
+		return false
+	}
+	return true
+}
+
+// lemmaLenBoundaries: the length forms at the boundaries named in the property statement.
+//
+//@ lemma
+//@ ensures ok
+func lemmaLenBoundaries() (ok bool) {
+	return specExtLen(0) == 0 && specExtLen(125) == 0 && specExtLen(126) == 2 && specExtLen(65535) == 2 && specExtLen(65536) == 8 &&
+		specByte1(false, 125) == 125 && specByte1(false, 126) == 126 && specByte1(false, 65535) == 126 && specByte1(true, 65536) == 0xff
+}
+
+// ---------------------------------------------------------------------------
+// Which side masks: newHybiConn makes the frame writer factory mask exactly on the client side
+// (request == nil), the side for which HandleFrame (IsServerConn: request != nil) expects unmasked
+// frames from its peer.
+
+//@ func newHybiConn(config, buf, rwc, request) (ws)
+//@   ensures ws != nil && ws.request == request && ws.frameReader == nil && ws.PayloadType == TextFrame
+//@   ensures hastype(ws.frameWriterFactory, hybiFrameWriterFactory) && ws.frameWriterFactory.(hybiFrameWriterFactory).needMaskingKey == (request == nil)
+//@   ensures hastype(ws.frameReaderFactory, hybiFrameReaderFactory) && hastype(ws.frameHandler, *hybiFrameHandler) && ws.frameHandler.(*hybiFrameHandler).conn == ws
+//@   ensures buf != nil ==> ws.frameWriterFactory.(hybiFrameWriterFactory).Writer == buf.Writer && ws.frameReaderFactory.(hybiFrameReaderFactory).Reader == buf.Reader
+//@   ensures buf == nil ==> ws.frameWriterFactory.(hybiFrameWriterFactory).Writer != nil && ws.frameReaderFactory.(hybiFrameReaderFactory).Reader != nil
+//@   noframe
+//@   allocates
+
+// ---------------------------------------------------------------------------
+// Payload type and bytes of the Message codec: a []byte travels as a binary frame and a string as
+// a text frame, and unmarshal gives back the same bytes.
+
+//@ lemma
+//@ ensures ok
+func lemmaMessageBytes(data []byte) (ok bool) {
+	msg, pt, err := marshal(data)
+	if err != nil || pt != BinaryFrame {
+		return false
+	}
+	var out []byte
+	if unmarshal(msg, pt, &out) != nil {
+		return false
+	}
+	if len(out) != len(data) {
+		return false
+	}
+	return len(data) == 0 || (out[0] == data[0] && out[len(data)-1] == data[len(data)-1] && &out[0] == &data[0])
+}
+
+//@ lemma
+//@ ensures ok
+func lemmaMessageText(data string) (ok bool) {
+	msg, pt, err := marshal(data)
+	if err != nil || pt != TextFrame {
+		return false
+	}
+	var out string
+	if unmarshal(msg, pt, &out) != nil {
+		return false
+	}
+	return out == data
+}
+
+// ---------------------------------------------------------------------------
+// Conn.Write and Codec.Send: one frame per message, opcode = payload type, payload = the message
+// (ghost `same` counts the frame writes whose argument is exactly the message slice).
+
+//@ func (*Conn).Write(ws, msg) (n, err)
+//@   requires ws != nil && ws.PayloadType < 16
+//@   requires hastype(ws.frameWriterFactory, hybiFrameWriterFactory) && ws.frameWriterFactory.(hybiFrameWriterFactory).Writer != nil
+//@   ghost frames += 1 at call Write
+//@   assert at call NewFrameWriter: $payloadType == ws.PayloadType
+//@   ghost same += 1 at call Write when len($msg) == len(msg) && samebase($msg, msg) && startoff($msg) == startoff(msg)
+//@   ensures err == nil ==> n == len(msg) && ghost(frames) == 1 && ghost(same) == 1
+//@   modifies *ws.frameWriterFactory.(hybiFrameWriterFactory).Writer
+//@   allocates
+//@
+//@ func (Codec).Send(cd, ws, v) (err)
+//@   requires ws != nil
+//@   requires hastype(ws.frameWriterFactory, hybiFrameWriterFactory) && ws.frameWriterFactory.(hybiFrameWriterFactory).Writer != nil
+//@   trustcall Marshal
+//@   ghost frames += 1 at call Write
+//@   assert at call NewFrameWriter: $payloadType == payloadType
+//@   ghost same += 1 at call Write when len($msg) == len(data) && samebase($msg, data) && startoff($msg) == startoff(data)
+//@   ensures err == nil ==> ghost(frames) == 1 && ghost(same) == 1
+//@   modifies *ws.frameWriterFactory.(hybiFrameWriterFactory).Writer
+//@   allocates
